@@ -131,7 +131,7 @@ def run(ctx):
         lang = c.lang or corpus.lang_of(c.inp)
         if lang not in LANG_EXT:
             lang = {"OC+": "OC", "C-Header": "C"}.get(lang, "C")
-        for k in range(3 if quick else 8):
+        for k in range(3 if quick else int(os.environ.get('C06_MUT', '8'))):
             m = mutate(ctx.rng, data) if k else data.rstrip(b"\r\n")        # k = 0: the file itself without its final line break
             r_ = ctx.rng.random()
             if r_ < 0.35:
